@@ -136,9 +136,9 @@ func (r *Record) Start() int {
 
 // Bin returns the BAM index bin of the record.
 func (r *Record) Bin() int {
-	if r.Flags&(Unmapped|MateUnmapped) == Unmapped|MateUnmapped {
-		return 4680 // reg2bin(-1, 0)
-	}
+	// The bin depends on the position only: a read without one
+	// (Pos == -1) gets 4680 = reg2bin(-1, 0), an unmapped read that
+	// is placed at a position is filed where queries look for it.
 	end := r.End()
 	if end <= r.Pos {
 		// An alignment whose CIGAR consumes no reference
